@@ -12,7 +12,7 @@ from harness import atoms as AT
 
 THEOREMS = {
     'RsomeV.Props.C11': ['RsomeV.C11.defsol_equiv', 'RsomeV.C11.defsol_cost', 'RsomeV.C11.ecos_equiv', 'RsomeV.C11.ecos_cost', 'RsomeV.C11.ecos_exp_membership',
-                         'RsomeV.C11.ortools_equiv', 'RsomeV.C11.ortools_cost', 'RsomeV.C11.gurobi_equiv', 'RsomeV.C11.gurobi_cost', 'RsomeV.C11.status_honest',
+                         'RsomeV.C11.ortools_equiv', 'RsomeV.C11.ortools_cost', 'RsomeV.C11.gurobi_equiv', 'RsomeV.C11.gurobi_cost', 'RsomeV.C11.status_honest', 'RsomeV.C11.status_honest_grb_ort',
                          'RsomeV.C11.ortools_keeps_infeasible_row', 'RsomeV.C11.gurobi_free_head'],
 }
 RULE = ("random deterministic LP / MILP (binaries and integers with user bounds, also tighter than [0,1]) / SOCP / exp-cone models "
@@ -128,6 +128,39 @@ def one_model(ctx, d, cls, integer, variant):
         ctx.sample({"class": cls, "integer": integer, "variant": variant, "values": vals}, limit=4)
 
 
+def unbounded_model(ctx, seed):
+    """an unbounded LP / MILP (a free ray in the continuous part, optionally an integer or binary column): every interface
+    must report that no solution is available - the incumbent a MILP solver may hold is not one"""
+    from rsome import ro
+    r = np.random.default_rng(seed)
+    vt = str(r.choice(['C', 'I', 'B']))
+    a, b, u = float(r.integers(1, 6)), float(r.integers(0, 5)), float(r.integers(1, 4))
+    case = {"unbounded_seed": seed, "vtype_of_extra_column": vt}
+    for name, solver in interfaces('lp', vt != 'C', vt):
+        ctx.search_cases += 1; ctx.evaluations += 1
+        try:
+            with C.quiet():
+                m = ro.Model()
+                x = m.dvar(2); k = m.dvar(vtype=vt)
+                m.min(x[0] + 2 * k)
+                m.st(x[0] >= x[1] - a, x[1] <= b, k >= 0, k <= u)        # x1 -> -inf drags x0 along
+                f = m.do_math()
+                if name == 'ecos' and not C.ecos_safe(f):
+                    ctx.count('skipped:ecos-unsafe'); continue
+                if solver is None:
+                    m.solve(display=False)
+                else:
+                    m.solve(solver, display=False)
+        except Exception as ex:
+            ctx.hit('interface-raises:' + name + ':' + type(ex).__name__, {"error": str(ex)[:200]}, case); continue
+        sol = m.rc_model.solution
+        ctx.count('unbounded:' + name)
+        if sol is None or (sol.x is None and np.isnan(sol.objval)):
+            continue
+        ctx.hit('solution-reported-for-unbounded-model:' + name,
+                {"objval": float(sol.objval), "status": str(sol.status)}, case)
+
+
 def run(ctx):
     # correspondence: the arguments each interface really hands to its solver API (recorded by wrapping the entry points)
     # vs the Lean translation of the compiled program
@@ -146,10 +179,15 @@ def run(ctx):
         cls2 = 'exp' if 'exp' in cones else ('soc' if 'soc' in cones else 'lp')
         variant = str(r.choice(['feasible', 'feasible', 'feasible', 'infeasible', 'infeasible-empty-row'], p=[0.25, 0.25, 0.25, 0.15, 0.1]))
         one_model(ctx, d, cls2, integer, variant)
+    for k in range(ctx.n(12, 120)):
+        unbounded_model(ctx, int(ctx.rng.integers(2 ** 31)))
 
 
 def replay(rp):
     ctx = C.Ctx('C11', 'quick', 0)
     c = rp['case']
+    if 'unbounded_seed' in c:
+        unbounded_model(ctx, c['unbounded_seed'])
+        return {"hits": [(h['key'], h['detail']) for h in ctx.hits], "fails": bool(ctx.hits)}
     one_model(ctx, c['desc'], c['class'], 'C' != c['desc']['vtype'], c['variant'])
     return {"hits": [(h['key'], h['detail']) for h in ctx.hits], "fails": bool(ctx.hits)}
